@@ -183,6 +183,7 @@ func (fr *FuncRun) execRecv(f *Frame, st *State, x *ssa.UnOp) {
 	fr.rangeAssume(st, v.T, et)
 	fr.syncPoint(f, st)
 	fr.chanInvAssume(f, st, x.X, ch, v)
+	fr.recvGhost(f, st, x.X, v, x.Pos())
 	recvd := fr.chanHeap("ChanRecvd")
 	cur := fr.heapCur(st, recvd)
 	fr.heapSet(st, recvd, sto(cur, ch.T, "(+ "+sel(cur, ch.T)+" 1)"))
@@ -214,8 +215,16 @@ func (fr *FuncRun) execSelect(f *Frame, st *State, x *ssa.Select) {
 			fr.rangeAssume(st, v.T, et)
 			// channel invariant holds for the received message when this case fires
 			sub := st.clone()
-			sub.reach = and(st.reach, fmt.Sprintf("(= %s %d)", idx, i))
+			sub.reach = fr.defAlways(sBool, and(st.reach, fmt.Sprintf("(= %s %d)", idx, i)), "selrecv")
 			fr.chanInvAssume(f, sub, s.Chan, ch, v)
+			fr.recvGhost(f, sub, s.Chan, v, s.Pos)
+			// ghost cells changed by this case take effect only if the case fires
+			for k, nv := range sub.cells {
+				if ov, ok := st.cells[k]; ok && ov.T != nv.T {
+					st.cells[k] = Val{T: fr.defAlways(nv.S, ite(fmt.Sprintf("(= %s %d)", idx, i), nv.T, ov.T), "ghostsel"), S: nv.S}
+					fr.noteCellWrite(k)
+				}
+			}
 			tup = append(tup, v)
 		} else {
 			sub := st.clone()
